@@ -454,6 +454,19 @@ def run_values(ctx):
       ctx.op('onehot')
       want = np.where(labels[..., None] == np.arange(nc), np.float32(0.9), np.float32(0.1)).astype(np.float32)
       ctx.check(np.asarray(oh).shape == want.shape and np.allclose(np.asarray(oh), want), 'onehot', None)
+      # narrow label dtypes with more classes than the dtype can count (a class index vector built in the label dtype would wrap)
+      ldt = ['uint8', 'int8', 'int16', 'uint16', 'int32', 'int64', 'uint8', 'int8'][k]
+      nc2 = [300, 300, 40000, 70000, 300, 7, 1000, 257][k]
+      hi = min(nc2, np.iinfo(ldt).max + 1)
+      lab2 = rng.integers(0, hi, size=(2, 3)).astype(ldt)
+      lab2[0, 0] = hi - 1
+      lab2[0, 1] = min(5, hi - 1)
+      for as_jax in (False, True):
+        oh2 = common_utils.onehot(jnp.asarray(lab2) if as_jax else lab2, nc2)
+        ctx.op('onehot')
+        want2 = (lab2.astype(np.int64)[..., None] == np.arange(nc2)).astype(np.float32)
+        ctx.check(np.asarray(oh2).shape == want2.shape and np.array_equal(np.asarray(oh2), want2), 'onehot:narrow_label_dtype',
+                  lambda: dict(label_dtype=ldt, num_classes=nc2, row_sums=np.asarray(oh2).sum(-1).ravel()[:6].tolist()))
       dev_metrics = [jax_utils.replicate({'loss': np.float32(i + k), 'acc': np.float32(i)}) for i in range(m)]
       gm = common_utils.get_metrics(dev_metrics)
       ctx.op('get_metrics')
